@@ -54,6 +54,14 @@ func instantiate(t *Term, pos bool, consts []*Term, budget *int) *Term {
 	}
 	switch {
 	case t.kind == 'q':
+		if t.op == "exists" && !pos && !t.open {
+			// under a negation an existential is a universal fact: offer the disjunction of instances
+			d := instantiate(TS.mk('q', "forall", SBool, []*Term{Not(t.args[0])}, t.bvars, nil), true, consts, budget)
+			if d.kind == 'q' {
+				return t
+			}
+			return Not(d)
+		}
 		if t.op == "forall" && pos && !t.open {
 			// candidate assignments: each bound var ranges over the constants of its sort
 			var cands [][]*Term
@@ -129,6 +137,10 @@ func prepareQuery(pc, goal *Term, hints []*Term) (newGoal *Term, newPC *Term, ex
 		goal = goal.args[1]
 	}
 	g := skolemize(goal, true, &sk)
+	for g.kind == 'a' && g.op == "=>" {
+		pc = And(pc, g.args[0])
+		g = g.args[1]
+	}
 	// existential content of the hypotheses (exists, or forall in an antecedent) gets constants too
 	var hsk []*Term
 	var hyps []*Term
